@@ -1,5 +1,6 @@
 import IstioModel.C05.Model
 import IstioModel.C03.Theorems
+import IstioModel.C03.WdsTheorems
 
 /-!
 # C05 - property theorems
@@ -220,6 +221,15 @@ theorem wds_version_skip_sound (index : List C03.Res) (hnd : (names index).Nodup
     · -- re-sent
       have : (get retained n != some v) = true := by simpa using hsame
       simp [this]
+
+/-- The same for the exact model of the real generator (`IstioModel.C03.wdsGenerate`, tied to
+    `WorkloadGenerator.GenerateDeltas` by the `wds` stream): a reconnecting wildcard ztunnel that
+    reports what it retained ends up holding exactly the index. -/
+theorem wds_reconnect_version_skip_real (idx : Index) (hnd : (idx.map (·.name)).Nodup) (w : WR)
+    (hw : w.wildcard = true) (sub : List String) (retained : Held) (hreport : ∀ n ∈ names retained, n ∈ sub) :
+    ∃ resp nn, pushDelta .addr w.names (wdsGenerate idx w { isReq := true, sub := sub, retained := retained }).out
+        = some (resp, nn) ∧ InSync (applyDelta retained resp) (idxRes idx) :=
+  (wds_wildcard_request_sync idx hnd w hw sub retained hreport).2
 
 /-- The skip really happens (non-vacuity): an unchanged retained address is not re-sent, a changed
     one is, a vanished one is removed. -/
